@@ -174,12 +174,18 @@ Definition ex_bytes : list byte :=
    x7b; x08; x63; x7c;
    x10; x2a].
 
+Definition ex_inner (x : Z) : pv :=
+  PMsg (Obj 11 [PInt x; PPlaceholder; PPlaceholder; PNone; PPlaceholder; PPlaceholder; PPlaceholder;
+                PPlaceholder; PPlaceholder; PPlaceholder; PPlaceholder] true [] [None]).
+Definition ex_msg : obj :=
+  Obj 11 [PInt (-1); PStr [xc3; xa9]; ex_inner 5; PNone; PFloat 4609434218613702656; PList [PInt (-1); PInt 150];
+          PDict [(PStr [x6b], ex_inner 1)]; PInt 7; PPlaceholder; PInt 3; PDatetime 1000000]
+      true [x7b; x08; x63; x7c; x10; x2a] [Some 7%nat].
+
 Example C17_welltyped_nonvacuous :
-  exists m, parse ex_sc 11 ex_bytes = Ok m /\ well_typed ex_sc m = true /\ decoded_range ex_sc m = true /\
-            ounk m = [x7b; x08; x63; x7c; x10; x2a] /\
-            nth 0 (oraw m) PNone = PInt (-1) /\ nth 1 (oraw m) PNone = PPlaceholder /\
-            enc_obj ex_sc m <> Err EOther.
-Proof. eexists. vm_compute. repeat split; discriminate. Qed.
+  parse ex_sc 11 ex_bytes = Ok ex_msg /\ well_typed ex_sc ex_msg = true /\ decoded_range ex_sc ex_msg = true /\
+  enc_obj ex_sc ex_msg = Ok ex_bytes.
+Proof. vm_compute. repeat split. Qed.
 
 (* an ill-typed object is NOT well_typed (the predicate is not trivially true) *)
 Example C17_welltyped_discriminates :
@@ -236,6 +242,7 @@ Proof. vm_compute. split; [discriminate | reflexivity]. Qed.
 
 (* the decoder's range for uint64 is tight: a ten-byte varint carries 70 bits and is not masked *)
 Example C17_uint64_wide_witness :
-  exists m, parse ex_sc 11 [x40; xff; xff; xff; xff; xff; xff; xff; xff; xff; x7f] = Ok m /\
-            nth 7 (oraw m) PNone = PInt (2 ^ 70 - 1).
-Proof. eexists. vm_compute. split; reflexivity. Qed.
+  parse ex_sc 11 [x40; xff; xff; xff; xff; xff; xff; xff; xff; xff; x7f] =
+  Ok (Obj 11 [PPlaceholder; PPlaceholder; PPlaceholder; PNone; PPlaceholder; PPlaceholder; PPlaceholder;
+              PInt (2 ^ 70 - 1); PPlaceholder; PPlaceholder; PPlaceholder] true [] [Some 7%nat]).
+Proof. vm_compute. reflexivity. Qed.
